@@ -299,5 +299,92 @@ theorem params_refine {h : Heap α} {parameters : Arr} {rows nSets nP pb i : Nat
   obtain ⟨y, _, hy⟩ := key j hj
   rw [hy]; rfl
 
+/-- **state_read_refine.** Reading the state view of cell `i` gives row `i` of the states storage. -/
+theorem state_read_refine {h : Heap α} {states : Arr} {N nS sb i : Nat} {sst : List α}
+    (rs : RootOn h states [(N : Int), (nS : Int)]) (hsb : states.base = (sb : Int))
+    (hs : h[states.sid]? = some sst) (hiN : i < N) :
+    stateView h states (i : Int) (nS : Int) = .ok (h, flat states.sid (sb + i * nS : Nat) nS) ∧
+      RootOn h (flat states.sid ((sb + i * nS : Nat) : Int) (nS : Int)) [(nS : Int)] ∧
+      readView h (flat states.sid ((sb + i * nS : Nat) : Int) (nS : Int)) = .ok (rowAt sst (sb + i * nS) nS) ∧
+      sb + i * nS + nS ≤ sst.length := by
+  obtain ⟨e, _, rv⟩ := stateView_eq rs (i := (i : Int)) (by omega) (by omega)
+  have eb : states.base + (i : Int) * nS = ((sb + i * nS : Nat) : Int) := by rw [hsb]; push_cast; ring
+  rw [eb] at e rv
+  obtain ⟨st', hs', hb, hf, _⟩ := rv.flat_store
+  rw [hs] at hs'; injection hs' with hs'; subst hs'
+  refine ⟨e, rv, ?_, by omega⟩
+  rw [readView_flat hs hb (by omega) hf]
+  simp only [Int.toNat_natCast]
+
+/-- **inputs_refine.** Reading the `nI` input views of cell `i` gives block `i % nIn` of the inputs storage. -/
+theorem inputs_refine {h : Heap α} {inputs : Arr} {nIn nI T ib i : Nat} {ist : List α}
+    (ri : RootOn h inputs [(nIn : Int), (nI : Int), (T : Int)]) (hib : inputs.base = (ib : Int))
+    (hi : h[inputs.sid]? = some ist) :
+    mapR (fun (k : Nat) => do
+        let (h2, v) ← inputView h inputs (i : Int) (k : Int) (nIn : Int) (nI : Int) (T : Int)
+        readView h2 v) (List.range nI) = .ok (mat ist (ib + (i % nIn) * (nI * T)) nI T) ∧
+      (cube ist ib nIn nI T)[i % (cube ist ib nIn nI T).length]?.getD [] = mat ist (ib + (i % nIn) * (nI * T)) nI T := by
+  obtain ⟨hnIn, _, _⟩ := pos3 ri.pos
+  have hmod : i % nIn < nIn := Nat.mod_lt _ (by omega)
+  constructor
+  · unfold mat
+    apply mapR_ok
+    intro k hk
+    have hk' := List.mem_range.mp hk
+    obtain ⟨e, rv⟩ := inputView_eq ri (i := (i : Int)) (k := (k : Int)) (by omega) (by omega) (by omega)
+    have eb : inputs.base + (((i : Int) % nIn) * nI + k) * T = ((ib + (i % nIn) * (nI * T) + k * T : Nat) : Int) := by
+      rw [hib]; push_cast; ring
+    rw [eb] at e rv
+    obtain ⟨st', hs', hb, hf, _⟩ := rv.flat_store
+    rw [hi] at hs'; injection hs' with hs'; subst hs'
+    simp only [e, bind, Except.bind]
+    rw [readView_flat hi hb (by omega) hf]
+    simp only [Int.toNat_natCast]
+  · rw [cube_length, cube_getElem? _ _ _ _ _ _ hmod]
+    rfl
+
+/-! ### the list-level write, pointwise -/
+
+theorem overwrite_getElem? [Num α] (row xs : List α) (k : Nat) (hk : k < row.length) :
+    (overwrite row xs)[k]? = if k < xs.length then xs[k]? else row[k]? := by
+  split
+  · exact Props.C04.overwrite_written row xs k (by assumption) hk
+  · exact Props.C04.overwrite_frame row xs k (by omega)
+
+/-- the output rows `cellStep` produces, pointwise: row `o` is the old row overwritten by the kernel's series `o`
+(by nothing when the kernel returned fewer series) -/
+theorem newO_getElem? (orow outs : List (List α)) (o : Nat) (ho : o < orow.length) (hlen : outs.length ≤ orow.length) :
+    ((orow.zip (outs ++ List.replicate (orow.length - outs.length) [])).map
+        fun (p : List α × List α) => overwrite p.1 p.2)[o]? =
+      some (overwrite (orow[o]'ho) (outs[o]?.getD [])) := by
+  have hpad : (outs ++ List.replicate (orow.length - outs.length) ([] : List α))[o]? = some (outs[o]?.getD []) := by
+    by_cases h : o < outs.length
+    · rw [List.getElem?_append_left h, List.getElem?_eq_getElem h]; rfl
+    · rw [List.getElem?_append_right (by omega), List.getElem?_replicate, if_pos (by omega),
+        List.getElem?_eq_none (by omega)]
+      rfl
+  rw [List.getElem?_map]
+  have : (orow.zip (outs ++ List.replicate (orow.length - outs.length) ([] : List α)))[o]? =
+      some (orow[o]'ho, outs[o]?.getD []) :=
+    List.getElem?_zip_eq_some.mpr ⟨List.getElem?_eq_getElem ho, hpad⟩
+  rw [this]
+  rfl
+
+/-- rows of a root `[M, nO, T']` lie inside its storage -/
+theorem RootOn.row_fits3 {h : Heap α} {a : Arr} {M nO T' b : Nat} {st : List α}
+    (r : RootOn h a [(M : Int), (nO : Int), (T' : Int)]) (hb : a.base = (b : Int)) (hs : h[a.sid]? = some st)
+    {i o : Nat} (hi : i < M) (ho : o < nO) : b + (i * nO + o) * T' + T' ≤ st.length := by
+  obtain ⟨st', hs', hl⟩ := r.ok.store
+  rw [hs] at hs'; injection hs' with hs'; subst hs'
+  have hf := r.ok.fits
+  rw [r.view] at hf
+  have hf' : ((M : Int) * ((nO : Int) * ((T' : Int) * 1))) ≤ a.len := hf
+  have h1 : i * nO + o < (i + 1) * nO := by rw [Nat.succ_mul]; omega
+  have h2 : (i + 1) * nO ≤ M * nO := Nat.mul_le_mul_right nO hi
+  have h3 : (i * nO + o + 1) * T' ≤ (M * nO) * T' := Nat.mul_le_mul_right T' (by omega)
+  rw [Nat.succ_mul] at h3
+  have h4 : (((M * nO) * T' : Nat) : Int) = (M : Int) * ((nO : Int) * ((T' : Int) * 1)) := by push_cast; ring
+  omega
+
 end
 end OW.WrapperNd
